@@ -10,6 +10,7 @@ INVARIANT TableLen
 INVARIANT HashOfTable
 INVARIANT RevisionDecidesGen
 INVARIANT BlockLen
+INVARIANT SigOffset
 INVARIANT FreshSignature
 INVARIANT ParsedIsBuilt
 INVARIANT ReadIsCurrent
